@@ -16,6 +16,7 @@ import (
 )
 
 const wValidatorName = "vmail"
+const wValidatorDomain = "vmail.test"
 const wValidatorCode = "123456"
 const wValidatorMaxRetries = 3
 
@@ -58,7 +59,9 @@ func (v *wValidator) Init(string) error   { return nil }
 func (v *wValidator) IsInitialized() bool { return true }
 
 func (v *wValidator) PreCheck(cred string, _ map[string]interface{}) (string, error) {
-	if len(cred) > 254 || !strings.Contains(cred, "@") || strings.ContainsAny(cred, " <>") {
+	// (addresses of one made-up domain only, so that search terms which look like other validators'
+	// credentials are never claimed by this one: rewriteTag asks the validators in map order)
+	if len(cred) > 254 || !strings.HasSuffix(strings.ToLower(cred), "@"+wValidatorDomain) || strings.ContainsAny(cred, " <>") {
 		return "", t.ErrMalformed
 	}
 	return wValidatorName + ":" + strings.ToLower(cred), nil
